@@ -366,6 +366,30 @@ def D5(F, rep, LR):
     r = [p for p in I.run('read') if not p.infeasible and not p.thrown]
     stores = all(any(it.path == ('objectType',) for it in p.items) for p in r) and bool(r)
     rep.ob('D5', 'read|objectType', stores, None, 'ObjectHeaderBase::read stores the type code in objectType', nontrivial=True)
+    # ... and nothing in between changes it: no codec function assigns objectType (an encoder that "normalises" the code writes a different
+    # type than the object carries, and changes the object it was given)
+    rep.count('D5')
+    bad = []
+    nfn = 0
+    for name, fns in F.functions.items():
+        for fn in fns:
+            cls = fn.get('class') or ''
+            if not (cls == OHB or OHB in F.all_bases(cls)) or fn.get('kind') in ('ctor', 'dtor'):
+                continue
+            nfn += 1
+            for n in walk(fn['body']):
+                t = None
+                if n.get('k') == 'Bin' and n.get('op') in ('=', '|=', '&=', '+=', '-='):
+                    t = n['lhs']
+                elif n.get('k') == 'Call' and n.get('ck') == 'operator' and n.get('op') == '=' and n.get('args'):
+                    t = n['args'][0]
+                if t is not None:
+                    p_ = member_path(t)
+                    if p_ and p_[-1] == 'objectType' and len([x for x in p_ if not x.startswith('$')]) == 1:
+                        bad.append('%s (line %s)' % (short(fn['name']), n.get('l')))
+    rep.ob('D5', 'objectType|never-reassigned', not bad and nfn > 100, None,
+           'no member function of the %d object classes assigns objectType (set by the constructor, stored by read())' % nfn if not bad else
+           'objectType is assigned outside constructor / stream read: %s' % ', '.join(bad[:4]), nontrivial=True)
 
 
 def D6(F, rep):
